@@ -1,6 +1,6 @@
 (* KernelRun.v: run_case with table-lookup oracles, for the kernel-path (vm_compute) cross-check
    of extraction and driver. Part of the correspondence harness. *)
-From CCT Require Import Prelude Hex Harness.
+From CCT Require Import Prelude Hex Sha256 Harness.
 Open Scope N_scope.
 
 Definition unhex (s : ustr) : bytes := match fromhex s with Some b => b | None => [] end.
@@ -31,4 +31,4 @@ Fixpoint disagreements (f : ustr -> ustr) (cases : list (ustr * ustr)) (i : nat)
   end.
 
 Definition kernel_disagreements vt pt st (cases : list (ustr * ustr)) : list nat :=
-  disagreements (run_case (tab_verify vt) (tab_pub pt) (tab_sign st)) cases 0.
+  disagreements (run_case (tab_verify vt) (tab_pub pt) (tab_sign st) sha256) cases 0.
